@@ -60,7 +60,7 @@ inline Plan Gen(uint64_t seed)
       for (int i=0; i<n; i++)
       {
          const int k = (int) wl.below(4);
-         switch(wl.below(14))
+         switch(wl.below(15))
          {
             case 0: case 1: case 2: s += " O" + I(k); break;
             case 3: s += " H" + I(k); break;
@@ -69,6 +69,7 @@ inline Plan Gen(uint64_t seed)
             case 8: s += " W" + I(k); break;
             case 9: s += wl.oneIn(2) ? " X" : " U"; break;
             case 10: s += wl.oneIn(3) ? " D" : " P"; break;
+            case 13: s += " Z" + I(k); break;   // obtain an object from one pool and one from the other, let the first hold the second, drop the first: its release nests a release into the other pool
             case 12: {const uint32_t q = wl.below(3); s += (q == 0) ? (" L" + I(k)) : ((q == 1) ? (" Q" + I(k)) : (" B" + I(k)));} break;   // L/Q: the local object takes a reference to slot k's object (directly / into its Queue); B: obtain from the SECOND pool into slot k
             case 11: {const uint32_t q = wl.below(7); s += (q == 0) ? (" S" + I(k)) : ((q == 1) ? std::string(" A") : ((q == 2) ? std::string(" K") : ((q == 3) ? (" M" + I(k)) : ((q == 4) ? (" F" + I(1 + k*3)) : ((q == 5) ? (" M" + I(k)) : std::string(" Y"))))));} break;
             default: s += " Y"; break;
@@ -118,6 +119,15 @@ template<int SLAB> struct Runner
                         if ((o->canary != 0xC0FFEE)||(o->inUse)||(o->payload != 0)||(o->GetRefCount() != 0)||(o->inner())||(o->kids.HasItems())) thr::ReportAndExit("pool_object_not_fresh", "an object obtained from the second pool is not in the state of a freshly constructed one (in use / payload / reference count / still holding references)");
                         o->inUse = true; o->payload = 20 + k; g_cnt.obtained++;
                         ObjRef nr(o); DECLARE_MUTEXGUARD(slotLock); slots[k] = nr;
+                     }
+                     break;
+                     case 'Z':
+                     {
+                        Obj * x = (k & 1) ? pool.ObtainObject() : pool2.ObtainObject(); Obj * y = (k & 1) ? pool2.ObtainObject() : pool.ObtainObject();
+                        if ((x == NULL)||(y == NULL)) {if (x) {x->inUse = true; g_cnt.obtained++; ObjRef r(x);} if (y) {y->inUse = true; g_cnt.obtained++; ObjRef r(y);} break;}
+                        x->inUse = y->inUse = true; x->payload = 40; y->payload = 41; g_cnt.obtained += 2;
+                        {ObjRef rx(x), ry(y); x->inner = ry; x->holdsRefs = true; y->isHeld = true; thr::Yield();}   // rx is the last reference to x: releasing x lets go of y from inside the release
+                        res.stats.inc("p.nested_cross_pool_release");
                      }
                      break;
                      case 'L': case 'Q':
